@@ -9,13 +9,14 @@ from props.rot_common import *
 
 PID = 'C15'
 MANIFEST = dict(
-    text='Machine-checked proof (Coq, all theorems closed under the global context) over the executable RotatingSink model: for every start instant and every non-decreasing timestamp sequence of one run (overwrite on, directory without files named stem.*.ext, live file initially empty) no file holds two statements with a rotation point of the schedule between them (C15_separates); a statement stays in the live file with everything written after it while no point passes and no size rotation fires (C15_shares); a rotated file carries strftime of the instant it was opened, equal suffixes get strictly increasing indices and names stay pairwise distinct (C15_name, C15_name_index_bump); the C14 theorems hold with time rotation enabled (C15_compose). The schedule premises are theorems for hourly/minutely rotation (points P0 + j*period; libc premise: the adjusted broken-down time lies in the future) and follow from the stated grid property of the libc-derived next-point function for daily rotation; that property is refuted for the real libc on DST-change days (daily_dst_grid_refuted, open finding C15-daily-dst). sched_drift_refuted replays the pre-fix behaviour (D7, fixed). Tied to the real RotatingFileSink by differential runs in GMT and five local zones including DST days (0 disagreements), monitor schedule computed independently with zoneinfo.',
+    text='Machine-checked proof (Coq, all theorems closed under the global context) over the executable RotatingSink model: for every start instant and every non-decreasing timestamp sequence of one run (overwrite on, directory without files named stem.*.ext, live file initially empty) no file holds two statements with a rotation point of the schedule between them (C15_separates); a statement stays in the live file with everything written after it while no point passes and no size rotation fires (C15_shares); a rotated file carries strftime of the instant it was opened, equal suffixes get strictly increasing indices and names stay pairwise distinct (C15_name, C15_name_index_bump); the C14 theorems hold with time rotation enabled (C15_compose). The schedule premises are theorems for hourly/minutely rotation (points P0 + j*period; libc premise: the adjusted broken-down time lies in the future). For daily rotation they follow from the grid property of the next-point function (C15_schedule_daily), which is a theorem in GMT for every code variant (timegm is arithmetic: C15_schedule_daily_gmt) and, in local time, a theorem for the code variant (c_plus24 = false: HH:MM converted with tm_isdst = -1, the HH:MM of the next day through mktime with tm_mday + 1, fixes/C15-daily-dst.diff) from premises on the calendar of libc only - local days do not go backwards, the instant mktime gives for HH:MM of day d lies in day d, no premise about DST (C15_schedule_daily_local); the variant that stands for the source tree is read from it on every run (T-src: rot_facts, TieC15.v, C15_code_variant). For the earlier variant (+ 24 h, tm_isdst of the current instant) the grid property is refuted with the real libc values of a DST-change day (daily_dst_grid_refuted, finding C15-daily-dst, repaired; daily_dst_code_example shows the repaired result). sched_drift_refuted replays the pre-fix behaviour (D7, fixed). Tied to the real RotatingFileSink by differential runs in GMT and five local zones, with daily schedules across DST changes and HH:MM inside the skipped / repeated hour (0 disagreements); the monitor computes the schedule independently with zoneinfo (a day whose HH:MM occurs twice: a rotation at either instant is accepted, the choice is that of the C library).',
     design='5 C15', technique='Coq invariant proof over an executable model + extracted-model/implementation differential correspondence in a scratch directory')
 TRUSTED = [
     'Coq 8.16.1 kernel (coqc, vm_compute for refutation / non-vacuity examples; no native_compute)',
-    'axioms: none (every theorem Closed under the global context); libc (strftime, localtime/gmtime + mktime/timegm) is a Section variable; for daily rotation the grid property of the derived next-point function is a stated premise',
+    'axioms: none (every theorem Closed under the global context); libc (strftime, localtime/gmtime + mktime/timegm) is a Section variable; for daily rotation in local time the premises on it are the calendar properties stated in C15_schedule_daily_local (they fail for an HH:MM inside a repeated hour, where mktime with tm_isdst = -1 is ambiguous: such days are covered by the correspondence and the monitor only)',
+    'T-src: tools/srcfacts.py rot_facts (clang 14 JSON AST skeleton of RotatingSink::_calculate_initial_rotation_tp) decides the model flag c_plus24; TieC15.v pins the skeleton by vm_compute; that the Gallina variant c_plus24 = false is faithful to that text is by inspection (and sampled by the correspondence on every run)',
     'extraction: ExtrOcamlBasic only, OCaml 4.13.1 ocamlopt, extract/driver.ml; oracle table filled from the real libc by harness/rot.cpp (direct libc calls, not through quill)',
-    'correspondence harness harness/rot.cpp (TZ set per case with setenv + tzset), g++ -fsanitize=address,undefined; the monitor computes the schedule with python zoneinfo (system tzdata)',
+    'correspondence harness harness/rot.cpp (TZ set per case with setenv + tzset; glibc mktime answers an ambiguous local time from the UTC offset remembered from its previous call: the harness primes it with mktime(localtime(t)) before every sink call at instant t and before the oracle calls for t), g++ -fsanitize=address,undefined; the monitor computes the schedule with python zoneinfo (system tzdata)',
     'modelled rather than verified: RotatingSink.h is re-stated in Gallina (Rotate/RotModel.v); the do/while that advances the hourly/minutely point is modelled by its closed form (period > 0); uint64 overflow of instants not modelled',
 ]
 
@@ -50,7 +51,15 @@ def gen(rng, n):
             c['interval'] = rng.choice([1, 1, 2, 3, 7])
             per = c['interval'] * (3600 if freq == 2 else 60)
         tr = transitions(ZONES[zone]) if not gmt else []
-        if tr and rng.random() < 0.6:
+        aimed = None
+        if tr and freq == 1 and rng.random() < 0.3:
+            # HH:MM inside / at the edge of the hour skipped or repeated by a change of the zone offset
+            aimed = rng.choice(tr)
+            w = datetime.datetime.fromtimestamp(aimed, ZoneInfo(ZONES[zone])) + datetime.timedelta(minutes=rng.choice([-61, -60, -59, -31, -30, -29, -1, 0, 1, 29, 30, 59, 60]))
+            c['hh'], c['mm'] = w.hour, w.minute
+        if aimed is not None:
+            start = aimed - rng.randrange(0, 60 * 3600)
+        elif tr and rng.random() < 0.6:
             start = rng.choice(tr) - rng.randrange(0, 36 * 3600)
         else:
             start = 1672531200 + rng.randrange(0, 365 * 86400)
@@ -83,6 +92,23 @@ def gen(rng, n):
     return cases
 
 
+def dst_shape(case):
+    """None, or for a daily schedule in a local zone whose span [start, last timestamp] holds a change of the zone
+    offset: 'crossing' | 'ambiguous' (HH:MM occurs twice on a day of the span) | 'skipped' (HH:MM does not exist
+    on a day of the span)"""
+    c = parse(case)
+    if c['freq'] != 1 or c['gmt'] or not c['ops']: return None
+    lo = c['ops'][0][3]; hi = max([o[2] for o in c['ops'][1:] if o[0] == 'W'] or [lo])
+    if not any(lo // NS < t <= hi // NS for t in transitions(ZONES[c['zone']])): return None
+    tz = zone_of(c); shape = 'crossing'
+    for d, cands in daily_days(c, lo, hi):
+        if len(cands) == 2: shape = 'ambiguous'
+        else:
+            back = datetime.datetime.fromtimestamp(cands[0] // NS, tz)
+            if (back.hour, back.minute) != (c['hh'], c['mm']): return 'skipped'
+    return shape
+
+
 def nontrivial(case, impl_line):
     """at least one time rotation (two sink files hold statements) and one pair of consecutive statements sharing a file"""
     if impl_line.startswith('RAW'): return False
@@ -99,7 +125,8 @@ def monitor(case, impl_line):
 
 def run(tier):
     ck = Check(PID, tier)
-    broken = standard_proof_phase(ck, 'Properties_C15', need_srcfacts=False)
+    broken = standard_proof_phase(ck, 'Properties_C15')
+    read_variant(ck)
     mexe, err = ck.build_modelrun()
     if not mexe:
         ck.violation('no-failing-input-found', 'model extraction/build failed: ' + err[-400:]); return ck.finish(trusted=TRUSTED)
@@ -119,11 +146,7 @@ def run(tier):
     findings = {f['id']: f for f in ck.known_for()}
 
     def known_match(case, impl_line, msg):
-        c = parse(case)
-        f = findings.get('C15-daily-dst')
-        if f and c['freq'] == 1 and not c['gmt'] and ('rotation point' in msg) and (dst_plus24_applies(c) or isdst_carry_applies(c)):
-            return '%s open: %s' % (f['id'], f['what'])
-        return None
+        return None                     # no open finding of C15 (D7 and C15-daily-dst are repaired)
 
     def shrink(case, mode):
         c = parse(case)
@@ -148,44 +171,23 @@ def run(tier):
         for k in (FREQS[c['freq']], SCHEMES[c['scheme']], 'GMT' if c['gmt'] else ZONES[c['zone']], 'size-rotation' if c['limit'] else 'time-only',
                   'maxb=%s' % ('inf' if c['maxb'] == UNLIMITED else c['maxb'])):
             hist[k] = hist.get(k, 0) + 1
+    shapes = {}
+    for cs, i in zip(cases, il):
+        sh = dst_shape(cs)
+        if sh:
+            shapes['daily_local_dst_' + sh] = shapes.get('daily_local_dst_' + sh, 0) + 1
+            if nontrivial(cs, i): shapes['daily_local_dst_' + sh + '_nontrivial'] = shapes.get('daily_local_dst_' + sh + '_nontrivial', 0) + 1
     return ck.finish(trusted=TRUSTED, samples=cases[:2] + cases[-2:],
-                     rule='one construct then write_log with non-decreasing injected timestamps (case line: see harness/rot.cpp); timestamps at g-1/g/g+1 ns of schedule points, gaps of 0.5/1/7.3 periods, DST days for daily/hourly in local zones, size rotation in the same period; non-trivial = at least two sink files hold statements and two statements share a file; distinct by case text',
+                     rule='one construct then write_log with non-decreasing injected timestamps (case line: see harness/rot.cpp); timestamps at g-1/g/g+1 ns of schedule points, gaps of 0.5/1/7.3 periods, DST days for daily/hourly in local zones (30% of the daily local cases put HH:MM at -61..+60 minutes around the wall clock of a change of the zone offset: skipped and repeated HH:MM), size rotation in the same period; non-trivial = at least two sink files hold statements and two statements share a file; distinct by case text',
                      evaluations=len(cases), distinct_nontrivial=nt, traces=len(cases) - len(dis) - len(mon),
-                     extra_cov={'disagreements': len(dis), 'monitor_failures': len(mon), 'corpus_cases': len(cor), 'generator_histogram': hist})
-
-
-def dst_plus24_applies(c):
-    """the defect's mechanism applies to this input: some start / record instant t has today's HH:MM
-    (local) at or before t, and the zone offset at that HH:MM differs from the offset 24 h later"""
-    tz = zone_of(c)
-    for o in c['ops']:
-        t = (o[3] if o[0] == 'R' else o[2]) // NS
-        d = datetime.datetime.fromtimestamp(t, tz)
-        for fold in (0, 1):
-            loc = datetime.datetime(d.year, d.month, d.day, c['hh'], c['mm'], 0, tzinfo=tz, fold=fold)
-            rt = int(loc.timestamp())
-            if rt <= t and datetime.datetime.fromtimestamp(rt, tz).utcoffset() != datetime.datetime.fromtimestamp(rt + 86400, tz).utcoffset():
-                return True
-    return False
-
-
-def isdst_carry_applies(c):
-    """some start / record instant t has today's HH:MM (local) still ahead, across a change of the zone offset"""
-    tz = zone_of(c)
-    for o in c['ops']:
-        t = (o[3] if o[0] == 'R' else o[2]) // NS
-        d = datetime.datetime.fromtimestamp(t, tz)
-        for fold in (0, 1):
-            loc = datetime.datetime(d.year, d.month, d.day, c['hh'], c['mm'], 0, tzinfo=tz, fold=fold)
-            rt = int(loc.timestamp())
-            if rt > t - 7200 and datetime.datetime.fromtimestamp(rt, tz).utcoffset() != d.utcoffset():
-                return True
-    return False
+                     extra_cov={'disagreements': len(dis), 'monitor_failures': len(mon), 'corpus_cases': len(cor), 'generator_histogram': hist,
+                                'daily_schedules_across_a_dst_change': shapes})
 
 
 def replay(path):
     d = json.load(open(path))
     ck = Check(PID, 'quick')
+    ck.srcfacts(); read_variant()
     mexe, _ = ck.build_modelrun(); iexe, _ = ck.build_harness('rot', ['rot.cpp'])
     c = d.get('case')
     if not c:
@@ -193,6 +195,7 @@ def replay(path):
     ml, il, _ = run_both(ck, mexe, iexe, [c])
     cc = parse(c)
     print('case :', c)
+    print('model variant (T-src): c_cntacct=%(cntacct)d c_plus24=%(plus24)d' % VARIANT)
     print('config: freq=%s interval=%d daily=%02d:%02d zone=%s scheme=%s limit=%d max_backup=%s overwrite=%d' % (
         FREQS[cc['freq']], cc['interval'], cc['hh'], cc['mm'], 'GMT' if cc['gmt'] else ZONES[cc['zone']], SCHEMES[cc['scheme']], cc['limit'], cc['maxb'], cc['over']))
     tz = zone_of(cc)
